@@ -27,7 +27,7 @@ LEVEL_NOTE = ('bounded depth; one process, no concurrent writers or I/O faults; 
               'which is what the canonical state contains; trusted: the reference model in mc/props/c03.py and the comparison code shared with C02')
 RULE = ('BFS over histories: initial states x operation menu, depth-bounded; a state is expanded once per shard (canonical hash of all file bytes + object fields). '
         'evaluations = transitions executed (each by replaying its whole history on fresh real objects); distinct_nontrivial = distinct canonical successor states.')
-ASSUMPTIONS = ['a second pre-existing file with the same table/column names but different column types can be opened at any point (operation open)', 'wall clock replaced by a fixed clock (timestamps in comments are not part of the property)',
+ASSUMPTIONS = ['one append adds one new keyword or two at once, the two given in an order that is not the sorted one; the array column of the second table is long[2] with values above 2^53 and at +-2^63', 'a second pre-existing file with the same table/column names but different column types can be opened at any point (operation open)', 'wall clock replaced by a fixed clock (timestamps in comments are not part of the property)',
                'appended pairs use new keywords (fresh upper-case ones and lower-case siblings of existing upper-case ones); a zero-length file is among the pre-existing files; appended rows come from a per-table menu indexed by the current row count']
 MIN_OUTCOMES = 4
 
